@@ -213,7 +213,7 @@ pub fn run(tier: Tier, seed: u64) -> i32 {
             return 2;
         }
     };
-    let n_jobs = tier.pick(64usize, 640);
+    let n_jobs = tier.pick(256usize, 3200);
     let ep_total = EP_ALPHABET.len() + EP_ALPHABET.len().pow(2) + EP_ALPHABET.len().pow(3);
     let ep_jobs = 32usize;
     let results = par::par_map(n_jobs + ep_jobs, |j| {
@@ -321,7 +321,7 @@ pub fn run(tier: Tier, seed: u64) -> i32 {
     // CLI part: the real binary ---------------------------------------------------------------
     cli.extend(["rnbqkbnr/pppppppp/8/8/8/8/PPPPPPPP/RNBQKBNR w KQkq ex 0 1".to_string(), "rnbqkbnr/pppppppp/8/8/8/8/PPPPPPPP/RNBQKBNR w KQkq é 0 1".to_string(),
         "rnbqkbnr/pppppppp/8/8/8/8/PPPPPPPP/RNBQKBNR w KQkq - 0 300".to_string(), "garbage".to_string(), "8/8/8/8/8/8/8/8 w - - 0 1".to_string()]);
-    let cli_n = tier.pick(300usize, 3000).min(cli.len());
+    let cli_n = tier.pick(600usize, 6000).min(cli.len());
     let mut rng = Rng::stream(seed, 0xC11);
     rng.shuffle(&mut cli);
     // keep the fixed cases in
